@@ -1,4 +1,5 @@
 import itertools
+from copy import copy
 from typing import Optional, Union
 
 import networkx as nx
@@ -398,6 +399,13 @@ class SQLLineageHolder(ColumnLineageMixin):
             elif holder.rename:
                 for table_old, table_new in holder.rename_in_order:
                     g = nx.relabel_nodes(g, {table_old: table_new})
+                    # columns move with their table
+                    columns = {}
+                    for _, col, edge_type in g.out_edges(table_new, data="type"):
+                        if edge_type == EdgeType.HAS_COLUMN and col.parent == table_old:
+                            columns[col] = copy(col)
+                            columns[col]._parent = {table_new}
+                    g = nx.relabel_nodes(g, columns)
                     if g.has_edge(table_new, table_new):
                         g.remove_edge(table_new, table_new)
                     if g.degree[table_new] == 0:
